@@ -16,9 +16,10 @@ Mirrored faithfully, including what is questionable:
 * `T` sets `setimes` *before* the numbers are parsed; times/sizes are accumulated in `long`/`off_t`
   with wrap-around (the C code has signed overflow; the harness is built with -fwrapv);
 * mode = exactly four octal digits; size; the name is everything after the second blank;
-* NO validation of the received name in the unchanged code (`nameOk false = fun _ => true`):
+* NO validation of the received name in the code as found (`nameOk .none = fun _ => true`):
   it is joined to the current target with a `/` when the target is a directory, and *replaces*
-  nothing otherwise (`np = targ`);  `nameOk true` is the OpenSSH scp rule (the proposed repair);
+  nothing otherwise (`np = targ`);  `nameOk .slashDotdot` (names with `/`, the name `..`) is the
+  repair, `nameOk .scp` the stricter OpenSSH scp rule; the check probes which one the code has;
 * `D`: `mkdir` or (existing directory, -p) `chmod`; then a new level; after the level returns the
   pending `T` times are applied to the directory (also without -p: only the sender looks at -p);
 * `C`: `open(O_WRONLY|O_CREAT)` without `O_TRUNC`, `fchmod` when the file existed and -p, ack, data
@@ -131,16 +132,32 @@ def parseCtl (s : Str) : Except Why (Nat × Int × Str) :=
 def scpNameOk (n : Str) : Bool :=
   !n.isEmpty && !n.contains cSlash && !(n == sDot) && !(n == sDotDot)
 
-/-- ***THE NAME VALIDATION OF THE RECEIVER.***  Unchanged code: none.  Repaired code: scp rule. -/
-def nameOk (repaired : Bool) (n : Str) : Bool :=
-  if repaired then scpNameOk n else true
+/-- the narrow rule, all that confinement needs: `strchr(cp, '/') != NULL || strcmp(cp, "..") == 0`
+is rejected (the empty name and `.` denote the target directory itself) -/
+def narrowNameOk (n : Str) : Bool := !n.contains cSlash && !(n == sDotDot)
+
+/-- which validation of received names the receiver performs (probed on the real code) -/
+inductive NameRule where
+  | none          -- the code as found: no validation (finding D13)
+  | slashDotdot   -- names containing `/` and the name `..` are rejected
+  | scp           -- the OpenSSH scp rule: additionally the empty name and `.`
+deriving DecidableEq, Repr
+
+/-- ***THE NAME VALIDATION OF THE RECEIVER.*** -/
+def nameOk (rule : NameRule) (n : Str) : Bool :=
+  match rule with
+  | .none => true
+  | .slashDotdot => narrowNameOk n
+  | .scp => scpNameOk n
 
 structure Opts where
   preserve : Bool        -- -p
   targetIsDir : Bool     -- -y
   umask : Nat            -- process umask at start
   cnt : Nat              -- `bp->cnt` = roundup(st_blksize, BUFSIZ) (BUFSIZ when that is 0)
-  repaired : Bool        -- model variant, see `nameOk`
+  rule : NameRule        -- model variant, see `nameOk`
+  dirChmod : Bool        -- model variant: with -p a directory is chmod'ed after mkdir (repair of F11-DIRMODE-SETID)
+  fsize : Option Nat     -- fault injection: RLIMIT_FSIZE of the receiver (SIGXFSZ ignored), `none` = no limit
   cwd : Path             -- canonical working directory of the receiver
   dest : Str             -- the destination string it was started with (`outfile`)
 
@@ -156,11 +173,16 @@ structure Frame where
   atm : Time
 deriving Inhabited
 
+/-- `enum { YES, NO, DISPLAYED } wrerr` -/
+inductive Wrerr where
+  | no | yes | displayed
+deriving DecidableEq, Repr
+
 inductive Phase where
   | start                                  -- at `cp = buf; read(infd, cp, 1)`
   | line (cp : Nat) (bufRev : Str)          -- inside the `do { read ch; *cp++ = ch } while` loop
   | data (p : Path) (np : Str) (size : Int) (left amt count fill : Nat) (pendRev writtenRev : Str)
-  | resp (np : Str) (displayed : Bool)     -- in `_response` after the data of a file
+  | resp (np : Str) (wr : Wrerr)           -- in `_response` after the data of a file
   | done                                   -- the top-level `_sink` returned
 
 structure St where
@@ -211,14 +233,43 @@ def screwup (o : Opts) (st : St) (w : Why) : St := leave o (st.reply (.err (.scr
 /-- `snprintf(namebuf, cursize, "%s%s%s", targ, *targ ? "/" : "", cp)` -/
 def joinName (targ name : Str) : Str := targ ++ (if targ.isEmpty then [] else [cSlash]) ++ name
 
+/-- what reaches the file of `w`, the bytes handed to `write` in sequence from offset 0: everything, or
+with a file size limit the first `L` bytes (the write that crosses the limit is short, later ones fail
+with EFBIG and, `wrerr` being set, are not even attempted) -/
+def Opts.writable (o : Opts) (w : Str) : Str :=
+  match o.fsize with
+  | none => w
+  | some l => w.take l
+
+/-- some `write` returned less than asked for -/
+def Opts.writeFails (o : Opts) (w : Str) : Bool :=
+  match o.fsize with
+  | none => false
+  | some l => decide (l < w.length)
+
+/-- `ftruncate(ofd, size)` fails with EFBIG when it would grow the file beyond the limit -/
+def Opts.truncFails (o : Opts) (cur : Nat) (size : Nat) : Bool :=
+  match o.fsize with
+  | none => false
+  | some l => decide (cur < size) && decide (l < size)
+
+/-- everything the data loop handed to `write`, in order (including the final partial buffer) -/
+def collected (count : Nat) (pendRev writtenRev : Str) : Str :=
+  (if count ≠ 0 then pendRev ++ writtenRev else writtenRev).reverse
+
 /-- end of the data loop: last partial write, `ftruncate(ofd, size)`, `close` -/
-def afterData (st : St) (p : Path) (np : Str) (size : Int) (count : Nat) (pendRev writtenRev : Str) :
+def afterData (o : Opts) (st : St) (p : Path) (np : Str) (size : Int) (count : Nat) (pendRev writtenRev : Str) :
     St :=
-  let w := (if count ≠ 0 then pendRev ++ writtenRev else writtenRev).reverse
+  let wall := collected count pendRev writtenRev
+  let w := o.writable wall
   let fs1 := if w.isEmpty then st.fs else setData st.fs p (overwrite (fileData st.fs p) w)
   if size < 0 then                                                              -- EINVAL
-    { st with fs := fs1, out := .err .trunc :: st.out, phase := .resp np true }
-  else { st with fs := setData fs1 p (resize (fileData fs1 p) size.toNat), phase := .resp np false }
+    { st with fs := fs1, out := .err .trunc :: st.out, phase := .resp np .displayed }
+  else if o.truncFails (fileData fs1 p).length size.toNat then                  -- EFBIG
+    { st with fs := fs1, out := .err .trunc :: st.out, phase := .resp np .displayed }
+  else
+    { st with fs := setData fs1 p (resize (fileData fs1 p) size.toNat),
+              phase := .resp np (if o.writeFails wall then .yes else .no) }
 
 /-- a `C` record: open the file and start the data loop -/
 def handleFile (o : Opts) (st : St) (np : Str) (mode : Nat) (size : Int) : St :=
@@ -228,7 +279,7 @@ def handleFile (o : Opts) (st : St) (np : Str) (mode : Nat) (size : Int) : St :=
   | some (fs', p, _) =>
     let fs' := if existed && o.preserve then fchmodAt fs' p mode else fs'
     let st := ({ st with fs := fs' }.touch p).reply .ack
-    if size ≤ 0 then afterData st p np size 0 [] []
+    if size ≤ 0 then afterData o st p np size 0 [] []
     else
       let amt := min BUFSZ size.toNat
       { st with phase := .data p np size size.toNat amt amt 0 [] [] }
@@ -247,7 +298,10 @@ def handleDir (o : Opts) (st : St) (np : Str) (mode : Nat) : St :=
   | none =>
     match mkdir st.fs o.cwd np mode o.eumask with
     | none => { st.reply (.err .path) with phase := .start }
-    | some (fs', p) => enter o ({ st with fs := fs' }.touch p) np
+    | some (fs', p) =>
+      -- the repaired receiver: `if (svr->preserve) (void)chmod(np, mode);` after a successful mkdir
+      let fs'' := if o.preserve && o.dirChmod then fchmodAt fs' p mode else fs'
+      enter o ({ st with fs := fs'' }.touch p) np
 
 /-- what the record loop makes of one complete record -/
 inductive Rec where
@@ -302,27 +356,30 @@ def handleRecord (o : Opts) (st : St) (line : Str) (ch : UInt8) : St :=
       { st with out := .ack :: st.out, stack := { f with setimes := true, mt := mt, atm := atm } :: rest,
                 phase := .start }
     | .ctl isDir mode size name =>
-      if !nameOk o.repaired name then screwup o st .badName
+      if !nameOk o.rule name then screwup o st .badName
       else
         let np := if f.targisdir then joinName f.targ name else f.targ
         -- namebuf has `need = strlen(targ) + strlen(cp) + 250` bytes
         let st := st.flag (f.targisdir && decide (f.targ.length + name.length + 250 < np.length + 1))
         if isDir then handleDir o st np mode else handleFile o st np mode size
 
-/-- `_response` returned 0 after a file: pending times, then the final acknowledgement -/
-def afterResponse (o : Opts) (st : St) (np : Str) (displayed : Bool) : St :=
+/-- `_response` returned 0 after a file: pending times, then `switch (wrerr)` -/
+def afterResponse (o : Opts) (st : St) (np : Str) (wr : Wrerr) : St :=
   match st.stack with
   | [] => { st with phase := .done }
   | f :: rest =>
-    if f.setimes && !displayed then
+    if f.setimes && wr == .no then
       let r := doUtimes o { st with stack := { f with setimes := false } :: rest } np f.atm f.mt
       if r.2 then { r.1.reply .ack with phase := .start } else { r.1 with phase := .start }
-    else if displayed then { st with phase := .start }
-    else { st.reply .ack with phase := .start }
+    else
+      match wr with
+      | .no => { st.reply .ack with phase := .start }
+      | .yes => { st.reply (.err .path) with phase := .start }        -- `_error(svr, "%s: %m\n", np)`
+      | .displayed => { st with phase := .start }
 
 /-- `read` failed inside the data loop: `_error("%m"); goto end_server` (what was flushed stays) -/
 def dataEOF (o : Opts) (st : St) (p : Path) (writtenRev : Str) : St :=
-  let w := writtenRev.reverse
+  let w := o.writable writtenRev.reverse
   let fs1 := if w.isEmpty then st.fs else setData st.fs p (overwrite (fileData st.fs p) w)
   leave o { st with fs := fs1, out := .err .read :: st.out }
 
@@ -352,9 +409,9 @@ def step (o : Opts) (st : St) (b : UInt8) : St :=
       if 1 < left then
         let a := min BUFSZ (left - 1)
         { st with phase := .data p np size (left - 1) a (count' + a) fill' pend' written' }
-      else afterData st p np size count' pend' written'
-  | .resp np displayed =>
-    if b = 0 then afterResponse o st np displayed
+      else afterData o st p np size count' pend' written'
+  | .resp np wr =>
+    if b = 0 then afterResponse o st np wr
     else leave o (st.reply (.err .respBad))
 
 /-- every remaining level sees end of input at its `read` and returns -/
